@@ -1,6 +1,7 @@
 mod driver;
 mod demos;
 mod demomut;
+mod schemagen;
 mod c08;
 mod c09;
 mod c11;
@@ -54,7 +55,7 @@ fn main() {
         "C25" => std::process::exit(c25::main(&args)),
         "show" => {
             // show <menu> <k> <index|all>
-            let m = match args.rest[0].as_str() { "args" => progx::Menu::Args, "abstract" => progx::Menu::Abstract, "cycles" => progx::Menu::Cycles, "clientargs" => progx::Menu::ClientArgs, "overlap" => progx::Menu::Overlap, "decls" => progx::Menu::Decls, "dups" => progx::Menu::Dups, "demomut" => progx::Menu::DemoMutations, "pointers" => progx::Menu::Pointers, _ => progx::Menu::General };
+            let m = match args.rest[0].as_str() { "args" => progx::Menu::Args, "abstract" => progx::Menu::Abstract, "cycles" => progx::Menu::Cycles, "clientargs" => progx::Menu::ClientArgs, "overlap" => progx::Menu::Overlap, "decls" => progx::Menu::Decls, "dups" => progx::Menu::Dups, "demomut" => progx::Menu::DemoMutations, "schemas" => progx::Menu::Schemas, "lists" => progx::Menu::Lists, "pointers" => progx::Menu::Pointers, _ => progx::Menu::General };
             let k: usize = args.rest[1].parse().unwrap();
             let progs = progx::programs(m, k);
             println!("{} programs", progs.len());
